@@ -75,6 +75,10 @@ type Gen struct {
 
 func (g *Gen) d(n int, l string) int { return g.T.Draw(n, l) }
 
+// wellKnownUsers: user names with a conventional meaning somewhere (Redis 6 "default" user, administrators);
+// to the framework they are user names like any other
+var wellKnownUsers = []string{"default", "Default", "DEFAULT", "admin", "root", "guest", "anonymous", "nobody"}
+
 var keySuffix = []string{"", "", ":x", " sp ace", "\r\n", "\x00z", "\xc3\xa9", "*", "$-1\r\n", "\n", "\r"}
 var valPool = []string{"v", "", "0", "-1", "12", "3.5", "NX", "ex", "\r\n+OK\r\n", "\r\n:1\r\n", "\r\n$-1\r\n", "a b", "\x00\x01\xff", "*1\r\n$4\r\nPING\r\n", "-ERR x", "\r", "\n"}
 
@@ -139,6 +143,18 @@ func (g *Gen) float() (string, float64) {
 	s := floatPool[g.d(len(floatPool), "float")]
 	f, _ := strconv.ParseFloat(s, 64)
 	return s, f
+}
+
+// UnicodeSpelling returns a spelling of a command name with letters outside ASCII whose upper-case form is an ASCII
+// letter (dotless i, long s): strings.ToUpper, by which the framework looks names up, maps it to the name itself.
+// "" when the name has no such letter.
+func UnicodeSpelling(name string) string {
+	l := strings.ToLower(name)
+	u := strings.NewReplacer("i", "\u0131", "s", "\u017f").Replace(l)
+	if u == l || strings.ToUpper(u) != strings.ToUpper(name) {
+		return ""
+	}
+	return u
 }
 
 func (g *Gen) cs(s string) string {
@@ -253,6 +269,10 @@ func (g *Gen) valid(r *Req, name string) {
 		pw := g.val()
 		if g.d(3, "authuser") == 0 {
 			u := g.key2("u")
+			if v := g.d(2*len(wellKnownUsers), "wellknownuser"); v < len(wellKnownUsers) {
+				// half of the user names are the conventional ones of Redis deployments and clients
+				u = wellKnownUsers[v]
+			}
 			a = append(a, u, pw)
 			r.Expect = one("Auth " + q(u) + " " + q(pw))
 		} else {
